@@ -144,4 +144,35 @@ theorem late_names_ok : NamesOK exLate ∧ checkMsaStrict exLate = true := by
         rcases hb with ⟨_, rfl⟩ | rfl <;> decide
   exact ⟨h, checkMsaStrict_of_namesOK h⟩
 
+/-! ### exactness in the other direction: 100 is reported only for a fully reproduced reference -/
+
+/-- **exactness, converse direction**: the code returns numerator = 100·denominator *only if* every
+(residue, partner-or-gap) relation of the reference is reproduced by the test alignment — 100 is
+never reported for an alignment that loses a relation. -/
+theorem score_100_only_if_all_reproduced (R T : List NRow) (wR wT : Nat) (hok : NamesOK R)
+    (hsame : (namedSeqs R).Perm (namedSeqs T))
+    (hrR : ∀ x ∈ R, x.row.length = wR) (hrT : ∀ x ∈ T, x.row.length = wT) :
+    ∃ c, msaCompare R T = .ok c ∧
+      ((scoreQ c).1 = 100 * (scoreQ c).2 ↔ ∀ e ∈ rel R, e ∈ rel T) := by
+  obtain ⟨c, h1, h2⟩ := score_eq_spec R T wR wT hok hsame hrR hrT
+  refine ⟨c, h1, ?_⟩
+  rw [h2]
+  unfold scoreSpec
+  simp only
+  rw [Nat.mul_left_cancel_iff (by decide), length_filter_eq_iff']
+  simp
+
+/-- a lost relation costs at least one count: the score is strictly below 100 -/
+theorem score_lt_100_of_lost_relation (R T : List NRow) (wR wT : Nat) (hok : NamesOK R)
+    (hsame : (namedSeqs R).Perm (namedSeqs T))
+    (hrR : ∀ x ∈ R, x.row.length = wR) (hrT : ∀ x ∈ T, x.row.length = wT)
+    (e : Rel) (heR : e ∈ rel R) (heT : e ∉ rel T) :
+    ∃ c, msaCompare R T = .ok c ∧ (scoreQ c).1 < 100 * (scoreQ c).2 := by
+  obtain ⟨c, h1, hiff⟩ := score_100_only_if_all_reproduced R T wR wT hok hsame hrR hrT
+  refine ⟨c, h1, ?_⟩
+  have hle := (score_bounds_unconditional R T c h1).2
+  have hne : (scoreQ c).1 ≠ 100 * (scoreQ c).2 := fun h => heT (hiff.1 h e heR)
+  omega
+
+example : ∃ e ∈ rel exR, e ∉ rel exU := by decide
 end Kalign
